@@ -212,7 +212,14 @@ impl Gen {
             match self.r.gen_range(0..10) {
                 0..=2 => {
                     let name = self.ncname();
-                    let v = self.items(6, true);
+                    // now and then an entity whose replacement text holds markup (`&#60;b/>` = `<b/>`): fine when it is
+                    // referenced in content, a violation of "No < in Attribute Values" when it is referenced -
+                    // possibly after a content reference to the same entity - in an attribute value
+                    let v = if self.r.gen_bool(0.15) {
+                        vec![json!({"t": "r", "c": 60}), json!({"t": "c", "c": 98}), json!({"t": "c", "c": 47}), json!({"t": "c", "c": 62})]
+                    } else {
+                        self.items(6, true)
+                    };
                     toks.push(json!({"k": "entity", "n": cp(&name), "v": v}));
                     if !self.ents.contains(&name) {
                         self.ents.push(name);
@@ -447,6 +454,48 @@ pub fn record(args: &[String]) -> i32 {
         return 0;
     }
     for i in 0..count {
+        if i % 12 == 11 {
+            // an entity whose replacement text holds markup (declared as `&#60;b/>`), possibly reached through a
+            // second entity, referenced in content and in an attribute value of one document - in either order
+            // (WFC "No < in Attribute Values" must hold however often the entity was accepted elsewhere)
+            let e = g.ncname();
+            let f = loop {
+                let f = g.ncname();
+                if f != e {
+                    break f;
+                }
+            };
+            let root = g.ncname();
+            let an = g.ncname();
+            let nested = g.r.gen_bool(0.4);
+            let used = if nested { f.clone() } else { e.clone() };
+            let eref = json!({"t": "e", "n": cp(&used)});
+            let mut toks = vec![json!({"k": "doctype", "n": cp(&root), "ext": "none", "pub": [], "sys": [], "subset": true}),
+                json!({"k": "entity", "n": cp(&e), "v": [{"t": "r", "c": 60}, {"t": "c", "c": 98}, {"t": "c", "c": 47}, {"t": "c", "c": 62}]})];
+            if nested {
+                toks.push(json!({"k": "entity", "n": cp(&f), "v": [{"t": "c", "c": 120}, {"t": "e", "n": cp(&e)}]}));
+            }
+            toks.push(json!({"k": "dtdend"}));
+            toks.push(json!({"k": "stag", "n": cp(&root), "attrs": [], "lex": "ok"}));
+            let content = json!({"k": "text", "items": [{"t": "c", "c": 120}, eref.clone()]});
+            let attr_first = g.r.gen_bool(0.3);
+            let in_attr = g.r.gen_bool(0.8);
+            let child = json!({"k": "stag", "n": cp(&root), "lex": "ok",
+                "attrs": [{"n": cp(&an), "v": if in_attr { json!([{"t": "c", "c": 121}, eref]) } else { json!([{"t": "c", "c": 121}]) }}]});
+            if !attr_first {
+                toks.push(content.clone());
+            }
+            toks.push(child);
+            toks.push(json!({"k": "etag", "n": cp(&root)}));
+            if attr_first {
+                toks.push(content);
+            }
+            toks.push(json!({"k": "etag", "n": cp(&root)}));
+            toks.push(json!({"k": "end"}));
+            let st = style(&mut g.r);
+            writeln!(w, "{}", json!({"toks": toks, "style": st, "edits": ["lt-entity"]})).unwrap();
+            continue;
+        }
         let mut toks = g.document();
         let ne = match edits {
             "0" => 0,
